@@ -260,6 +260,10 @@ pub struct Route {
     pub grouped: bool,
     pub mode: u8,
     pub nested_position: bool,
+    /// with `grouped`: 0 = an invisible group in the token stream (syn decides what arrives), 1..3 = that many
+    /// `Expr::Group` layers built as syntax-tree nodes around the value
+    #[serde(default)]
+    pub depth: u8,
 }
 
 pub struct Form {
@@ -289,10 +293,20 @@ pub const FORMS: &[Form] = &[
 ];
 
 /// Build the meta item; with `grouped` the value of a name-value item is wrapped in an invisible group.
-fn build_meta(form: &Form, grouped: bool) -> Result<(syn::Meta, (usize, usize)), Fail> {
+fn build_meta(form: &Form, grouped: bool, depth: u8) -> Result<(syn::Meta, (usize, usize)), Fail> {
     use syn::spanned::Spanned;
     let m: syn::Meta = syn::parse_str(form.src).map_err(|e| Fail::new("c15:harness-render", format!("{}: {}", form.src, e)))?;
     let whole = range(m.span());
+    if grouped && depth > 0 {
+        if let syn::Meta::NameValue(nv) = &m {
+            let mut v = nv.value.clone();
+            for _ in 0..depth {
+                let sp = v.span();
+                v = syn::Expr::Group(syn::ExprGroup { attrs: vec![], group_token: syn::token::Group { span: sp }, expr: Box::new(v) });
+            }
+            return Ok((syn::Meta::NameValue(syn::MetaNameValue { path: nv.path.clone(), eq_token: nv.eq_token, value: v }), whole));
+        }
+    }
     if grouped {
         if let syn::Meta::NameValue(nv) = &m {
             let v = &nv.value;
@@ -313,9 +327,9 @@ fn build_meta(form: &Form, grouped: bool) -> Result<(syn::Meta, (usize, usize)),
 pub fn check_route(ctx: &Ctx, r: &Route) -> Result<(), Fail> {
     fresh_spans();
     let form = &FORMS[r.form % FORMS.len()];
-    ctx.set_render(json!({"overridden": (0..7).filter(|i| r.mask & (1 << i) != 0).map(|i| probes::HOOK_NAMES[i]).collect::<Vec<_>>(), "item": form.src, "grouped": r.grouped, "mode": r.mode, "nested_literal_position": r.nested_position}));
+    ctx.set_render(json!({"overridden": (0..7).filter(|i| r.mask & (1 << i) != 0).map(|i| probes::HOOK_NAMES[i]).collect::<Vec<_>>(), "item": form.src, "grouped": r.grouped, "group_depth": r.depth, "mode": r.mode, "nested_literal_position": r.nested_position}));
     let nested_lit = r.nested_position && form.is_lit && !r.grouped;
-    let (meta, whole) = build_meta(form, r.grouped)?;
+    let (meta, whole) = build_meta(form, r.grouped, r.depth)?;
     let own: proc_macro2::TokenStream = " ownspan".parse().unwrap();
     let own_span = own.into_iter().next().unwrap().span();
     probes::LOG.with(|l| l.borrow_mut().clear());
@@ -416,9 +430,14 @@ pub fn all_routes() -> Vec<Route> {
                 if grouped && !FORMS[form].src.contains(" = ") {
                     continue;
                 }
-                for mode in 0..3u8 {
-                    for nested_position in [false, true] {
-                        v.push(Route { mask, form, grouped, mode, nested_position });
+                for depth in 0..4u8 {
+                    if depth > 0 && !grouped {
+                        continue;
+                    }
+                    for mode in 0..3u8 {
+                        for nested_position in [false, true] {
+                            v.push(Route { mask, form, grouped, mode, nested_position, depth });
+                        }
                     }
                 }
             }
@@ -444,7 +463,7 @@ pub fn run(args: &Args) -> bool {
     }
     if want("routing") {
         let ctx = Ctx::new("C15", "routing", vmodel::ev::mix_seed(args.seed, "C15", "routing", args.shard), args);
-        ctx.set_rule("part b: all 128 override patterns of a probe FromMeta implementer x 15 item forms (word, 3 lists, 7 literal kinds, 4 non-literal expressions) x plain / invisible group x hook outcome (ok, unspanned error, error with own span) x from_meta / from_nested_meta (literals also in nested-literal position): exactly the most general overridden hook on the documented chain is called once, otherwise the documented default error; errors come back spanned inside the item unless the hook attached its own span. Exhaustive.");
+        ctx.set_rule("part b: all 128 override patterns of a probe FromMeta implementer x 15 item forms (word, 3 lists, 7 literal kinds, 4 non-literal expressions) x plain / invisible group (in the token stream, and 1-3 Expr::Group layers built as syntax-tree nodes) x hook outcome (ok, unspanned error, error with own span) x from_meta / from_nested_meta (literals also in nested-literal position): exactly the most general overridden hook on the documented chain is called once, otherwise the documented default error; errors come back spanned inside the item unless the hook attached its own span. Exhaustive.");
         if let Some((_, case)) = &replay {
             let r: Route = serde_json::from_value(case.clone()).expect("bad replay");
             ok &= run_list(&ctx, vec![r], check_route);
